@@ -185,8 +185,16 @@ func (ig *IntervalGraph) setEdge(e graph.Edge) {
 
 	ig.nodes[fid] = from
 	ig.nodes[tid] = to
-	ig.from[fid] = map[int64]graph.Edge{tid: e}
-	ig.to[tid] = map[int64]graph.Edge{fid: e}
+	if fm, ok := ig.from[fid]; ok {
+		fm[tid] = e
+	} else {
+		ig.from[fid] = map[int64]graph.Edge{tid: e}
+	}
+	if tm, ok := ig.to[tid]; ok {
+		tm[fid] = e
+	} else {
+		ig.to[tid] = map[int64]graph.Edge{fid: e}
+	}
 }
 
 // Interval I(h) is the maximal, single entry subgraph for which h (head)
